@@ -111,4 +111,23 @@ def docExtMask : Nat → Nat
 
 def extRowOk (r : ExtRow) : Bool := r.changed == docExtMask r.ext
 
+
+/-- Composite shapes of the documentation: slices for arrays, maps for free-form and
+additional-properties-only objects, the referenced named type for `$ref`. shape: 0 array of string,
+1 array of `$ref Y`, 2 `{type: object}`, 3 additionalProperties: true, 4 additionalProperties: {type: integer},
+5 additionalProperties: `$ref Y`, 6 `$ref Y`, 7 array of array of integer. `asMember`: as an optional member of
+an object (then a pointer to it). -/
+structure ShapeRow where
+  shape : Nat
+  asMember : Bool
+  got : String
+deriving Repr, DecidableEq, Inhabited
+
+def docShape : Nat → String
+  | 0 => "[]string" | 1 => "[]Y" | 2 => "map[string]interface{}" | 3 => "map[string]interface{}"
+  | 4 => "map[string]int" | 5 => "map[string]Y" | 6 => "Y" | 7 => "[][]int"
+  | _ => "?"
+
+def shapeRowOk (r : ShapeRow) : Bool := r.got == (if r.asMember then "*" else "") ++ docShape r.shape
+
 end OapiVerif.TypeMap
